@@ -120,7 +120,14 @@ var (
 )
 
 func getCertSet(ki, issuerClass int, serial *big.Int) *certSet {
-	id := fmt.Sprintf("%d|%d|%s", ki, issuerClass, serial.String())
+	return getCertSetPad(ki, issuerClass, serial, 0)
+}
+
+// getCertSetPad: as getCertSet, with a subject common name lengthened by pad
+// characters, so that the length of a signature blob made with the certificate
+// can be steered through all residues mod 8.
+func getCertSetPad(ki, issuerClass int, serial *big.Int, pad int) *certSet {
+	id := fmt.Sprintf("%d|%d|%s|%d", ki, issuerClass, serial.String(), pad)
 	certSetMu.Lock()
 	defer certSetMu.Unlock()
 	if cs := certSets[id]; cs != nil {
@@ -130,7 +137,7 @@ func getCertSet(ki, issuerClass int, serial *big.Int) *certSet {
 	ok := keys.Get(ki + 1)
 	tk := keys.Get(ki + 2)
 	iss := keys.IssuerName(issuerClass, fmt.Sprint(ki))
-	c, err := keys.Mint(k, k, iss, serial, "signer")
+	c, err := keys.Mint(k, k, iss, serial, "signer"+strings.Repeat("x", pad))
 	if err != nil {
 		panic(err)
 	}
